@@ -567,6 +567,21 @@ def _eliminate_returns_flag(stmts: List[ast.stmt], tmp: str, flag: str, depth: i
     return out
 
 
+
+def _immutable_default(d: ast.AST) -> bool:
+    if isinstance(d, ast.Constant):
+        return True
+    if isinstance(d, ast.UnaryOp) and isinstance(d.operand, ast.Constant):
+        return True
+    if isinstance(d, (ast.Name, ast.Attribute)):
+        return all(isinstance(n, (ast.Name, ast.Attribute, ast.Load)) for n in ast.walk(d))
+    if isinstance(d, ast.Tuple):
+        return all(_immutable_default(e) for e in d.elts)
+    if isinstance(d, ast.BinOp):
+        return _immutable_default(d.left) and _immutable_default(d.right)
+    return False
+
+
 class _Helper:
     def __init__(self, qual: str, node: ast.FunctionDef, cls: Optional[ast.ClassDef]):
         self.qual, self.node, self.cls = qual, node, cls
@@ -613,7 +628,13 @@ class _Helper:
             if p not in out:
                 if p not in self.defaults:
                     return None
-                out[p] = self.defaults[p]
+                d = self.defaults[p]
+                # a default is evaluated ONCE, at definition time: copying its expression to the call site is only the same
+                # thing for immutable values (constants, dotted names, tuples of those) - a `[]` / `{}` / call default is
+                # one shared object and must not become a fresh one per call
+                if not _immutable_default(d):
+                    return None
+                out[p] = d
         return out
 
 
@@ -1138,15 +1159,38 @@ def merge_new_bases(tree: ast.Module, known: Set[str], stats: dict) -> None:
                 out[st.target.id] = st
         return out
 
+    def closed(name: str, seen=()) -> bool:
+        """a NEW class of this module, undecorated, all of whose bases are `object` or again such classes"""
+        if name in seen or name not in classes or name in known:
+            return False
+        b0 = classes[name]
+        if b0.keywords or b0.decorator_list:
+            return False
+        return all(isinstance(x, ast.Name) and (x.id == "object" or closed(x.id, seen + (name,))) for x in b0.bases)
+
+    def linearise(c: ast.ClassDef) -> List[ast.ClassDef]:
+        """the new bases of c in method resolution order (computed by Python itself on a skeleton of the hierarchy)"""
+        direct = [b.id for b in c.bases if isinstance(b, ast.Name) and closed(b.id)]
+        if not direct:
+            return []
+        built: Dict[str, type] = {}
+
+        def build(name: str) -> type:
+            if name not in built:
+                bs = tuple(build(x.id) for x in classes[name].bases if isinstance(x, ast.Name) and x.id != "object")
+                built[name] = type(name, bs or (object,), {})
+            return built[name]
+
+        try:
+            top = type("_top", tuple(build(n) for n in direct), {})
+        except TypeError:
+            return []  # no consistent MRO: Python would reject the class statement as well
+        return [classes[k.__name__] for k in top.__mro__[1:] if k.__name__ in classes and k is not object]
+
     for c in list(classes.values()):
         if c.name not in known:
             continue
-        for b in c.bases:
-            if not (isinstance(b, ast.Name) and b.id in classes and b.id not in known):
-                continue
-            base = classes[b.id]
-            if any(not (isinstance(x, ast.Name) and x.id == "object") for x in base.bases) or base.keywords or base.decorator_list:
-                continue
+        for base in linearise(c):
             own = members(c)
             for name, st in members(base).items():
                 if name not in own:
